@@ -185,6 +185,10 @@ theorem sorted_step {s : Mbox} (hs : Sorted s) (e : Ev) : Sorted (step s e) := b
   | clear =>
     simp only [step, clear]
     exact ⟨by simp, by simp, by simp, by simp⟩
+  | iprobe f d =>
+    simp only [step, iprobeMark]
+    exact ⟨hs.q, hs.d, fun c hc => by have := hs.qlt c hc; simp only; omega,
+           fun c hc => by have := hs.dlt c hc; simp only; omega⟩
 
 theorem sorted_foldl (h : List Ev) : ∀ s, Sorted s → Sorted (h.foldl step s) := by
   induction h with
@@ -289,7 +293,7 @@ theorem cok_new_send (h : List Ev) (n a pl size : Nat) (f : Filter) (d : Option 
 theorem link_step {h : List Ev} {s : Mbox} (hl : Link h s) (e : Ev) : Link (h ++ [e]) (step s e) := by
   have hlen : (step s e).next = (h ++ [e]).length := by
     have := hl.len
-    cases e <;> simp only [step, isend, irecv, setReceiver, cancel, finish, clear, List.length_append,
+    cases e <;> simp only [step, isend, irecv, setReceiver, cancel, finish, clear, iprobeMark, List.length_append,
       List.length_cons, List.length_nil] <;> (repeat' split) <;> simp [this]
   have liftq : ∀ c ∈ s.queue, COk (h ++ [e]) c ∧ c.copied = false ∧
       (c.type = .recv → c.payload = none ∧ c.sendEv = none) ∧ (c.type = .send → c.hasBuf = false ∧ c.recvEv = none) :=
@@ -301,6 +305,7 @@ theorem link_step {h : List Ev} {s : Mbox} (hl : Link h s) (e : Ev) : Link (h ++
   all_goals
     cases e with
     | setReceiver r => first | exact liftq | exact liftd | exact lifto
+    | iprobe f d => first | exact liftq | exact liftd | exact lifto
     | clear =>
       simp only [step, clear]
       first
@@ -533,6 +538,7 @@ theorem disj_step {s : Mbox} (hs : Sorted s) (hd : Disj s) (e : Ev) : Disj (step
   | clear =>
     simp only [step, clear, Disj]
     intro x hx; cases hx
+  | iprobe f d => exact hd
 
 theorem disj_foldl (h : List Ev) : ∀ s, Sorted s → Disj s → Disj (h.foldl step s) := by
   induction h with
@@ -550,5 +556,66 @@ theorem id_ne_of_split {l pre post : List Comm} {c x : Comm} (hl : l.Pairwise (f
   rcases hx with hx | hx
   · have := h3 x hx c (by simp); omega
   · have := (List.pairwise_cons.mp h2).1 x hx; omega
+
+/-! ### `mbox_` of a queued comm (what `cancel()` and `clear()` dereference) -/
+
+/-- every comm in comm_queue_ has its back pointer `mbox_` set -/
+def MboxOk (s : Mbox) : Prop := ∀ c ∈ s.queue, c.mboxSet = true
+
+theorem mboxOk_step {s : Mbox} (hm : MboxOk s) (e : Ev) : MboxOk (step s e) := by
+  cases e with
+  | isend a pl size f d det =>
+    simp only [step, isend]
+    (repeat' split)
+    all_goals dsimp only [MboxOk]
+    · exact hm
+    · intro c hc
+      simp only [List.mem_append, List.mem_singleton] at hc
+      rcases hc with hc | hc
+      · exact hm c hc
+      · subst hc; rfl
+    · rename_i r rest hf
+      obtain ⟨pre, post, e1, e2, _, _⟩ := findMatching_some hf
+      intro c hc
+      exact hm c ((by rw [e2]; exact sub_of_split e1 : rest.Sublist s.queue).subset hc)
+  | irecv a f d =>
+    simp only [step, irecv]
+    (repeat' split)
+    all_goals dsimp only [MboxOk]
+    · exact hm
+    · intro c hc
+      simp only [List.mem_append, List.mem_singleton] at hc
+      rcases hc with hc | hc
+      · exact hm c hc
+      · subst hc; rfl
+    · rename_i c0 rest hf
+      obtain ⟨pre, post, e1, e2, _, _⟩ := findMatching_some hf
+      intro c hc
+      exact hm c ((by rw [e2]; exact sub_of_split e1 : rest.Sublist s.queue).subset hc)
+    · intro c hc
+      simp only [List.mem_append, List.mem_singleton] at hc
+      rcases hc with hc | hc
+      · exact hm c hc
+      · subst hc; rfl
+  | setReceiver r => exact hm
+  | cancel id =>
+    simp only [step, cancel]
+    (repeat' split)
+    all_goals dsimp only [MboxOk]
+    · exact hm
+    · intro c hc; exact hm c (List.mem_of_mem_eraseP hc)
+    · exact hm
+  | finish id => exact hm
+  | clear =>
+    simp only [step, clear, MboxOk]
+    intro c hc; cases hc
+  | iprobe f d => exact hm
+
+theorem mboxOk_foldl (h : List Ev) : ∀ s, MboxOk s → MboxOk (h.foldl step s) := by
+  induction h with
+  | nil => intro s hs; exact hs
+  | cons e es ih => intro s hs; exact ih _ (mboxOk_step hs e)
+
+theorem mboxOk_run (h : List Ev) : MboxOk (run h) := mboxOk_foldl h _ (by intro c hc; cases hc)
 
 end SgVerif.C08
